@@ -43,6 +43,9 @@ type DetCase struct {
 	SeamA    Seam              `json:"seam_a"`
 	SeamB    Seam              `json:"seam_b"`
 	Proc     bool              `json:"proc"` // also run as a separate OS process
+	// Sweep > 0: when the first run started goroutines, the command is executed under Sweep further schedules derived from schedule A
+	// (map order and clock as in A), each compared with the first run
+	Sweep int `json:"sweep,omitempty"`
 	// Interfere names another template that is executed in the same process between two executions of Template: state
 	// leaking from one command (or one library call) into the next shows as a difference between those two
 	Interfere string `json:"interfere,omitempty"`
@@ -269,23 +272,25 @@ func init() {
 			"Nextstrain export with mutations of several genes per branch, for half of the cases branch lengths that are not dyadic (sums depend on the order of the additions), a "+
 			"protein alignment with the ambiguity code X and gaps, a nucleotide alignment with IUPAC codes, tip states, rename / annotation / tip / group files; thread "+
 			"count 1..4 for threaded commands; two seam settings A and B, each = (map-iteration order seed, wall-clock epoch, goroutine schedule)). The command runs "+
-			"in-process through cmd.RootCmd inside the scheduler under A, under B, (for half of the cases: another template, often of the same command family, in between,) under A again, and — for a share of the cases — as separate OS processes of the "+
+			"in-process through cmd.RootCmd inside the scheduler under A, under B, (for half of the cases: another template, often of the same command family, in between,) under A again, under 3..10 further schedules (map order and clock as in A) for three quarters of the cases whose first run started goroutines, and — for a share of the cases — as separate OS processes of the "+
 			"instrumented binary under both map seeds. Oracle: all outputs (main output, extra files, stdout) byte-identical; per-tree records of threaded commands "+
 			"compared after sorting lines; documented date lines of support logs masked. Non-trivial: the command succeeded and wrote ≥ 1 non-empty output; distinct = "+
-			"distinct (template, inputs, seed, threads)", len(detTemplates)),
+			"distinct (template, inputs, seed, threads). Before the seeded search every template is executed on 6 (quick) / 48 (thorough) generated inputs with the ten-schedule sweep, so that no template depends on being drawn", len(detTemplates)),
 		Gen:  genC18,
+		Enum: enumC18,
 		New:  func() any { return &DetCase{} },
 		Exec: execC18,
 		Real: []string{"cmd.RootCmd and every command of the templates (cobra, flag parsing, readers, writers)", "asr / acr parsimony", "generators and randomised edits through the global math/rand source",
 			"the instrumented gotree binary as a separate process"},
 		Simulated: []string{"map-iteration order of every string/integer-keyed map range in gotree (seeded permutation of the sorted keys)", "goroutine schedule", "wall clock", "process boundary"},
-		Expected:  []string{"ran-ok", "cross-process", "threads>1", "mapseed-differs", "epoch-differs", "asr-protein-with-X", "interfering-command"},
+		Expected:  []string{"ran-ok", "cross-process", "threads>1", "mapseed-differs", "epoch-differs", "asr-protein-with-X", "interfering-command", "schedule-sweep"},
 	})
 }
 
 func init() {
 	base := Engines["c18"]
 	thr := *base
+	thr.Enum = nil
 	thr.Name = "c18thr"
 	thr.Rule = "as c18, restricted to the templates that take -t, with 2..4 threads; this engine also runs in the -race binary (race detector kept live under the serialised " +
 		"schedule), where a data race between worker goroutines is reported as a violation: a racy update is a result that may differ from run to run"
@@ -306,7 +311,7 @@ func init() {
 	Register(&thr)
 }
 
-func genDetFiles(rt *rapid.T, withBig bool) map[string]string {
+func genDetFiles(rt *rapid.T, withBig bool, nondyadic int) map[string]string {
 	r := rapidRnd{rt}
 	files := map[string]string{}
 	ntax := rapid.IntRange(6, 9).Draw(rt, "ntax")
@@ -432,7 +437,7 @@ func genDetFiles(rt *rapid.T, withBig bool) map[string]string {
 		`{"name":"t0","node_attrs":{"div":1.5},"branch_attrs":{"mutations":{"nuc":["A1T","C22G"],"S":["D614G"],"ORF1a":["T265I","P4715L"],"N":["R203K","G204R"],"E":["P71L"],"M":["I82T"]}}},` +
 		`{"name":"NODE_1","node_attrs":{"div":0.25},"branch_attrs":{"labels":{"aa":"S: N501Y; N: D3L"},"mutations":{"nuc":["G3A"],"S":["N501Y"],"N":["D3L"]}},"children":[` +
 		`{"name":"t1","node_attrs":{"div":1},"branch_attrs":{"mutations":{"ORF3a":["Q57H"],"ORF8":["L84S"],"ORF1b":["P314L"],"S":["A222V"]}}},{"name":"t2","node_attrs":{"div":2}}]}]}}`
-	if rapid.Bool().Draw(rt, "nondyadic") {
+	if nd := rapid.Bool().Draw(rt, "nondyadic"); (nd && nondyadic < 0) || nondyadic == 1 {
 		// lengths whose sums depend on the order of the additions
 		re := regexp.MustCompile(`:[0-9]+(\.[0-9]+)?`)
 		for name, text := range files {
@@ -454,18 +459,50 @@ func genSeam(rt *rapid.T, label string) Seam {
 	return Seam{MapSeed: uint64(rapid.IntRange(1, 1<<20).Draw(rt, label+"map")), Epoch: int64(rapid.SampledFrom([]int{1000, 5, 1700000000, 99999999999}).Draw(rt, label+"epoch")), Sched: genSched(rt)}
 }
 
-func genC18(rt *rapid.T, tier string) any {
+func genC18(rt *rapid.T, tier string) any { return genC18T(rt, tier, "", -1) }
+
+// enumC18 gives every template a floor of executions per batch set, whatever the seeded search happens to draw: template i is
+// executed with k = 0..K-1 generated inputs (generator seeded by (i, k)), each with the full schedule sweep.
+func enumC18(tier string, batch, nbatch int) []any {
+	K := 6
+	if tier == "thorough" {
+		K = 48
+	}
+	var out []any
+	for i := range detTemplates {
+		for k := 0; k < K; k++ {
+			if (i*K+k)%nbatch != batch {
+				continue
+			}
+			name := detTemplates[i].name
+			gen := rapid.Custom(func(rt *rapid.T) any { return genC18T(rt, tier, name, k%2) })
+			c := gen.Example(1000*i + k + 1).(*DetCase)
+			c.Sweep = 10
+			out = append(out, c)
+		}
+	}
+	return out
+}
+
+func genC18T(rt *rapid.T, tier string, forced string, nondyadic int) any {
 	c := &DetCase{}
 	c.Template = detTemplates[rapid.IntRange(0, len(detTemplates)-1).Draw(rt, "template")].name
 	if rapid.IntRange(0, 9).Draw(rt, "priority") < 4 {
 		// the templates whose code ranges over maps or runs worker pools are drawn more often (the first 25 of the list)
 		c.Template = detTemplates[rapid.IntRange(0, 24).Draw(rt, "ptemplate")].name
 	}
-	c.Files = genDetFiles(rt, strings.HasSuffix(c.Template, "-big"))
+	if only := os.Getenv("VERIF_C18_TEMPLATE"); only != "" && templateByName(only) != nil {
+		c.Template = only // developer aid: measure one template at a time (never set by the registered commands)
+	}
+	if forced != "" {
+		c.Template = forced
+	}
+	c.Files = genDetFiles(rt, strings.HasSuffix(c.Template, "-big"), nondyadic)
 	c.Seed = rapid.IntRange(0, 1000).Draw(rt, "seed")
 	c.Threads = rapid.SampledFrom([]int{1, 2, 3, 4}).Draw(rt, "threads")
 	c.SeamA, c.SeamB = genSeam(rt, "a"), genSeam(rt, "b")
 	c.Proc = rapid.IntRange(0, 3).Draw(rt, "proc") == 0
+	c.Sweep = rapid.SampledFrom([]int{0, 3, 6, 10}).Draw(rt, "sweep")
 	if rapid.Bool().Draw(rt, "interfere") {
 		c.Interfere = detTemplates[rapid.IntRange(0, len(detTemplates)-1).Draw(rt, "itemplate")].name
 		if rapid.Bool().Draw(rt, "samefamily") {
@@ -737,8 +774,30 @@ func execC18(t *testing.T, cc any, o *Outcome) {
 	seamText := func(s Seam) string {
 		return fmt.Sprintf("map-order seed %d, epoch %d, schedule strategy %d seed %d", s.MapSeed, s.Epoch, s.Sched.Strategy, s.Sched.Seed)
 	}
-	a1 := runInProcess(t, dir, tpl, c, c.SeamA, "a1")
+	var resA sched.Result
+	a1 := runInProcessRes(t, dir, tpl, c, c.SeamA, "a1", &resA)
 	b := runInProcess(t, dir, tpl, c, c.SeamB, "b")
+	if resA.Goroutines > 1 && c.Sweep > 0 {
+		// the code under test is concurrent: more schedules of the same command, everything else as in A
+		o.Probe("schedule-sweep")
+		for k := 1; k <= c.Sweep; k++ {
+			s := c.SeamA
+			s.Sched.Strategy = k % 4
+			s.Sched.Seed = c.SeamA.Sched.Seed*31 + uint64(k)*0x9E3779B97F4A7C15
+			s.Sched.Choices = nil
+			s.Sched.SitePct = 100
+			s.Sched.PCT = nil
+			if s.Sched.Strategy == 3 {
+				s.Sched.PCT = []int{1 + int(s.Sched.Seed%97), 1 + int(s.Sched.Seed/97%211)}
+			}
+			s.Sched.Quantum = []int{0, 1000, 50, 17}[k/4%4]
+			sk := runInProcess(t, dir, tpl, c, s, "s"+strconv.Itoa(k))
+			if d := diffResults(a1, sk, false); d != "" {
+				o.Fail("nondeterministic:"+tpl.name, "the output depends on the goroutine schedule (map order and clock unchanged)\n%s\nseam A: %s\nswept schedule %d: %s\n%s", ctx, seamText(c.SeamA), k, seamText(s), d)
+				return
+			}
+		}
+	}
 	if itpl := templateByName(c.Interfere); itpl != nil {
 		ic := *c
 		if !itpl.threaded {
